@@ -152,48 +152,54 @@ Definition finish (p : proj) (f : found) : result :=
   | _ => RErr
   end.
 
-(* FordLinkProcessor.convert_link with md.current_context = ctx *)
-Definition convert_link (p : proj) (ctx : option nat) (r : ref) : result :=
-  let name := r_name r in
-  (* the context step *)
-  let step1 : found :=
-    match ctx with
+(* the context, then its parent *)
+Definition scope_find (p : proj) (c : nat) (name : str) (kind : option str) : found :=
+  match find_child_quiet p c name kind with
+  | NotFound =>
+    match get_ent p c with
+    | Some e => match e_parent e with
+                | Some par => find_child_quiet p par name kind
+                | None => NotFound
+                end
     | None => NotFound
-    | Some c =>
-      let item :=
-        match find_child_quiet p c name (r_kind r) with
-        | NotFound =>
-          match get_ent p c with
-          | Some e => match e_parent e with
-                      | Some par => find_child_quiet p par name (r_kind r)
-                      | None => NotFound
-                      end
-          | None => NotFound
-          end
-        | f => f
-        end in
-      match item, r_child r with
-      | Found i, Some cn => find_child p i cn (r_ckind r)     (* "isn't allowed to fail" *)
-      | _, _ => item
-      end
-    end in
-  match step1 with
+    end
+  | f => f
+  end.
+
+(* the part of convert_link under `if (context := self.md.current_context) is not None` *)
+Definition ctx_step (p : proj) (ctx : option nat) (r : ref) : found :=
+  match ctx with
+  | None => NotFound
+  | Some c =>
+    match scope_find p c (r_name r) (r_kind r), r_child r with
+    | Found i, Some cn => find_child p i cn (r_ckind r)     (* "isn't allowed to fail" *)
+    | item, _ => item
+    end
+  end.
+
+(* "if item is None: item = self.project.find(...)" and the fall-back to the page
+   of the component *)
+Definition project_step (p : proj) (r : ref) : result :=
+  match project_find p (r_name r) (r_kind r) (r_child r) (r_ckind r) with
   | ErrV | ErrT => RErr
   | Found i => finish p (Found i)
   | NotFound =>
-    match project_find p name (r_kind r) (r_child r) (r_ckind r) with
-    | ErrV | ErrT => RErr
-    | Found i => finish p (Found i)
-    | NotFound =>
-      match r_child r with
-      | Some _ =>                                            (* link to the parent page instead *)
-        match project_find p name (r_kind r) None None with
-        | ErrV | ErrT => RErr
-        | f => finish p f
-        end
-      | None => RPlain
+    match r_child r with
+    | Some _ =>
+      match project_find p (r_name r) (r_kind r) None None with
+      | ErrV | ErrT => RErr
+      | f => finish p f
       end
+    | None => RPlain
     end
+  end.
+
+(* FordLinkProcessor.convert_link with md.current_context = ctx *)
+Definition convert_link (p : proj) (ctx : option nat) (r : ref) : result :=
+  match ctx_step p ctx r with
+  | ErrV | ErrT => RErr
+  | Found i => finish p (Found i)
+  | NotFound => project_step p r
   end.
 
 (* ------------------------------------------------------------------------------------------ *)
@@ -233,12 +239,12 @@ Definition doc_item_kinds : list (str * str) :=
    (s "type", s "types"); (s "variable", s "variables")].
 
 (* the attributes of an enclosing entity that hold things of a component kind *)
-Definition scope_attrs_of_collection (c : str) : list str :=
+Definition scope_attrs (k c : str) : list str :=
   if str_eqb c (s "procedures") then [s "functions"; s "subroutines"; s "interfaces"]
-  else if str_eqb c (s "absinterfaces") then [s "absinterfaces"; s "interfaces"]
+  else if str_eqb (lower k) (s "interface") then [s "absinterfaces"; s "interfaces"]
        (* inside a scope "interface" may as well mean one of its generic interfaces *)
   else if str_eqb c (s "allfiles") then []
-  else [c].                      (* types, modules, submodules, programs, ... *)
+  else [c].                      (* types, absinterfaces, modules, submodules, programs, ... *)
 
 Definition aval_ids (v : aval) : list nat :=
   match v with AList ids => ids | ASingle i => [i] | _ => [] end.
@@ -268,7 +274,7 @@ Definition scope_cands (p : proj) (i : nat) (name : str) (kind : option str) : l
     match kind with
     | None => matching p name (contents e)
     | Some k => match comp_kind k with
-                | Some c => matching p name (contents_of e (scope_attrs_of_collection c))
+                | Some c => matching p name (contents_of e (scope_attrs k c))
                 | None => []
                 end
     end
@@ -379,9 +385,19 @@ Definition region_error (p : proj) (ctx : option nat) (r : ref) : bool :=
 (* well-formedness of the abstract project, as far as the theorems need it *)
 Definition list_attr_ok (v : aval) : bool :=
   match v with AList _ | ADict => true | _ => false end.
+Definition single_attr_ok (v : aval) : bool :=
+  match v with ASingle _ | ANone => true | _ => false end.
+Fixpoint nodup_keys (l : list (str * aval)) : bool :=
+  match l with
+  | [] => true
+  | (a, _) :: l' => negb (str_in a (map fst l')) && nodup_keys l'
+  end.
 Definition shapes_ok (e : ent) : bool :=
-  forallb (fun av => if str_in (fst av) children_attrs then list_attr_ok (snd av) else true)
-          (e_attrs e).
+  forallb (fun av => if str_in (fst av) children_attrs then list_attr_ok (snd av)
+                     else if str_in (fst av) non_list_children then single_attr_ok (snd av)
+                     else true)
+          (e_attrs e)
+  && nodup_keys (e_attrs e).
 Definition attrs_covered (e : ent) : bool :=
   forallb (fun av => str_in (fst av) children_attrs || str_in (fst av) non_list_children
                      || match snd av with AList [] | ANone | ADict => true | _ => false end)
